@@ -139,8 +139,7 @@ class C08(Monitor):
         for c in spaces.with_modes(spaces.prog_Pa()):
             out.append(c)
         # a spread over the whole stratum rather than its first rows
-        step = max(1, len(out) // self.nprog())
-        return out[::step][: self.nprog()]
+        return spaces.spread(out, self.nprog())
 
     def cases(self):
         n = consts.size(self.tier)
